@@ -857,6 +857,20 @@ func dsTxHistory(c *CaseCtx, kind string, class string) {
 			}
 			run.CheckObs("after-reopen")
 		}
+		if kind != "list" && r.Intn(15) == 0 && run.Files() >= 2 {
+			// sets and sorted sets survive a (sequential) Merge unchanged, in the process and after a reopen; the same
+			// keys and members are used in both buckets (lists: recorded finding of C15)
+			c.Log("merge (%d files)", run.Files())
+			if merr, p := mergeNoPanic(run); p != "" {
+				c.Violate("panic:Merge:"+p, class, "Merge panicked: "+p)
+				return
+			} else if merr == nil {
+				c.Stat("merges_succeeded", 1)
+			}
+			if !run.CheckObs("after-merge") || !run.Reopen() || !run.CheckObs("after-merge-reopen") {
+				return
+			}
+		}
 	}
 	if run.Dead || c.Violated() {
 		return
